@@ -106,8 +106,15 @@ def gen_seq(rng, backend, depth, nops, kinds, observe="obs", extra_obs=None, pre
         k = rng.choice([cap, cap, cap - 1, max(cap // 2, 1)])
         seq.append(f"range 0x0 {vlist([rng.randint(1, 1 << 30) for _ in range(k)])}")
     for _ in range(nops):
-        if rng.random() < 0.02:
+        r0 = rng.random()
+        prev = [l for l in seq if l.split(" ")[0] in ("set", "del", "app", "range", "batch")]
+        if r0 < 0.02:
             seq.append(f"tree new {backend} {depth}")   # reset
+        elif r0 < 0.10 and prev:
+            seq.append(prev[-1])                         # the same call again with identical arguments (idempotence shortcuts)
+        elif r0 < 0.14 and prev and prev[-1].startswith("set "):
+            w = prev[-1].split(" ")                      # write, then write the DEFAULT value / delete / rewrite at the same position
+            seq.append(rng.choice([f"set {w[1]} 0x0", f"del {w[1]}", f"set {w[1]} {w[2]}"]))
         else:
             seq.append(gen_mutator(rng, cap, kinds))
         if observe == "obs":
